@@ -354,9 +354,9 @@ def check(rep: Report, tier: str, seed: int) -> None:
     rng = seeded(seed * 7919 + 32)
     quick = tier == "quick"
     lines, exp, meta = [], [], []
-    for part in (corr_bandwidth_sym(rep, rng, 100 if quick else 1500),
-                 corr_global_impl(rep, rng, 40 if quick else 600),
-                 corr_minimize(rep, rng, 26 if quick else 300, big=2 if quick else 12)):
+    for part in (corr_bandwidth_sym(rep, rng, 100 if quick else 3000),
+                 corr_global_impl(rep, rng, 40 if quick else 1200),
+                 corr_minimize(rep, rng, 26 if quick else 600, big=2 if quick else 12)):
         lines += part[0]; exp += part[1]; meta += part[2]
     try:
         out = pc.par_batch(lines, 12)
@@ -373,7 +373,7 @@ def check(rep: Report, tier: str, seed: int) -> None:
                 rep.broke(f"correspondence Model.Bandwidth vs optimiser.py [{fn}] kind={kind} n={n}: model={m[:120]} impl={e[:120]} "
                           f"input={json.dumps(data)[:500]}")
     rep.extra["correspondence_disagreements"] = dis
-    pc.helper_correspondence(rep, rng, 200 if quick else 3000)
+    pc.helper_correspondence(rep, rng, 200 if quick else 6000)
     laws(rep, rng, 150 if quick else 4000)
     probe_index_dtype(rep)
     if rep.broken and not rep.failing:
